@@ -201,7 +201,7 @@ struct MemObj {
         for (auto it = cells.begin(); it != cells.end();) {
             if (it->first < off + n && it->first + it->second.n > off) {
                 if (!it->second.e.get_sort().is_bv())
-                    throw PathEnd{"inconclusive", "partial access to a real-mode double in memory"};
+                    throw PathEnd{"inconclusive", "partial access to a real-mode double in memory (cell at +" + std::to_string(it->first) + " size " + std::to_string(it->second.n) + ", access +" + std::to_string(off) + " len " + std::to_string(n) + " in " + name + ")"};
                 for (uint64_t i = 0; i < it->second.n; i++)
                     symb.insert_or_assign(it->first + i, it->second.e.extract(8 * i + 7, 8 * i).simplify());
                 it = cells.erase(it);
@@ -287,7 +287,7 @@ struct Engine {
     std::vector<std::string> notes;
     uint64_t allocCap = 1ULL << 26;
     bool checkLeaks = false;
-    uint64_t freshId = 0;
+    uint64_t freshId = 0, randCalls = 0;
     std::map<std::string, z3::func_decl> ufs;
     z3::expr uf(const std::string &name, const std::vector<z3::expr> &args)
     {
@@ -353,6 +353,7 @@ struct Engine {
         knownCtx.clear();
         notes.clear();
         freshId = 0;
+        randCalls = 0;
     }
     std::string fresh(const char *pfx)
     {
@@ -415,10 +416,14 @@ struct Engine {
     void clearSym(MemObj &o, uint64_t off, uint64_t n)
     {
         if (!o.cells.empty()) {
-            auto ex = o.cells.find(off);
-            if (ex != o.cells.end() && ex->second.n == n)
-                o.cells.erase(ex);
-            else
+            // cells completely overwritten simply disappear; only partially overwritten ones are split into bytes
+            for (auto it = o.cells.begin(); it != o.cells.end();) {
+                if (it->first >= off && it->first + it->second.n <= off + n)
+                    it = o.cells.erase(it);
+                else
+                    ++it;
+            }
+            if (!o.cells.empty())
                 o.explode(off, n);
         }
         if (!o.symb.empty()) {
@@ -505,13 +510,31 @@ struct Engine {
         uint64_t n = DL->getTypeStoreSize(ty);
         ObjP o = findObj(addr, n, false);
         uint64_t off = addr - o->base;
+        if (ty->isIntegerTy() && n > 8 && n % 8 == 0 && !o->cells.empty()) {
+            // a wide integer load that merely copies 8-byte slots, some of which hold real-mode doubles: keep the slots apart
+            bool hasReal = false;
+            for (auto &cc : o->cells)
+                if (cc.first >= off && cc.first < off + n && !cc.second.e.get_sort().is_bv())
+                    hasReal = true;
+            if (hasReal) {
+                Val v;
+                v.k = Val::AGG;
+                Type *i64 = Type::getInt64Ty(ty->getContext()), *dbl = Type::getDoubleTy(ty->getContext());
+                for (uint64_t i = 0; i < n; i += 8) {
+                    auto cc = o->cells.find(off + i);
+                    bool real = cc != o->cells.end() && cc->second.n == 8 && !cc->second.e.get_sort().is_bv();
+                    v.agg.push_back(load(addr + i, real ? dbl : i64));
+                }
+                return v;
+            }
+        }
         if (!o->cells.empty()) {
             auto c = o->cells.find(off);
             if (c != o->cells.end() && c->second.n == n) {
                 z3::expr e = c->second.e;
                 if (!e.get_sort().is_bv()) {
-                    if (!ty->isFloatingPointTy())
-                        throw PathEnd{"inconclusive", "integer load of a real-mode double"};
+                    // an integer-typed load of a real-mode double is a bit copy (struct/closure copies): the value travels as
+                    // is; any bit-level *use* of it is rejected where it happens (toBV)
                     return Val::sym(e);
                 }
                 if (bits < n * 8)
@@ -527,7 +550,15 @@ struct Engine {
                     ov = true;
             if (ov) {
                 o = findObj(addr, n, true);
-                o->explode(off, n);
+                try {
+                    o->explode(off, n);
+                } catch (PathEnd &pe) {
+                    std::string ts;
+                    raw_string_ostream os(ts);
+                    ty->print(os);
+                    pe.msg += " [load of " + ts + " in " + (stack.empty() ? "?" : demangle(stack.back().f->getName().str()).substr(0, 60)) + "]";
+                    throw;
+                }
             }
         }
         bool anySym = false;
@@ -585,6 +616,12 @@ struct Engine {
             return;
         }
         uint64_t n = DL->getTypeStoreSize(ty);
+        if (v.k == Val::AGG && ty->isIntegerTy()) { // slot-wise copy (see load)
+            Type *i64 = Type::getInt64Ty(ty->getContext()), *dbl = Type::getDoubleTy(ty->getContext());
+            for (size_t i = 0; i < v.agg.size(); i++)
+                store(addr + 8 * i, v.agg[i], isRealV(v.agg[i]) ? dbl : i64);
+            return;
+        }
         ObjP o = findObj(addr, n, true);
         uint64_t off = addr - o->base;
         clearSym(*o, off, n);
@@ -1835,7 +1872,7 @@ struct Engine {
                         unsigned w = DL->getTypeSizeInBits(ty);
                         if (w == 1)
                             F.regs[I] = simp(z3::ite(toBool(c), toBool(a), toBool(b)));
-                        else if (isRealV(a) || isRealV(b))
+                        else if (isRealV(a) || isRealV(b) || (g_realMode && ty->isDoubleTy()))
                             F.regs[I] = Val::sym(z3::ite(toBool(c), toRealE(a, w), toRealE(b, w)));
                         else if ((a.isS() && a.e.get_sort().is_fpa()) || (b.isS() && b.e.get_sort().is_fpa()))
                             F.regs[I] = Val::sym(z3::ite(toBool(c), toFP(a, w), toFP(b, w)));
@@ -2479,7 +2516,7 @@ static std::string runPath(Engine &E, const RunCfg &rc, const std::vector<Engine
     E.resetPath();
     g_realMode = false;
     g_bvInts = false;
-    E.checkLeaks = false;
+    E.checkLeaks = E.params.count("leak") && E.params["leak"] != 0; // C40: leak monitor at harness exit
     z3::solver S(Z);
     {
         z3::params pr(Z);
